@@ -185,8 +185,9 @@ class C10(Check):
     thorough_cases = 6000
 
     def strategy(self, tier):
-        a = asm_strategy()
-        return st.one_of(a, a, a, a, a, a, a, cxx_strategy())
+        a, c = asm_strategy(), cxx_strategy()
+        # 6 assembly cases per C++ case (one_of would give 1:1; the C++ flavour costs ~10x more)
+        return st.integers(0, 6).flatmap(lambda k: c if k == 0 else a)
 
     def run_case(self, case, ctx):
         if case["flavour"] == "asm":
